@@ -45,6 +45,7 @@ class SysEngine(MempoolEngine):
         self.uw = None
         self.clock = 0
         self.quiescing = False
+        self.big_h = None         # height of the most recent block of >= 200 txs mined by a 'big' op
         self.notify_in_flight = 0
         self.queryable = set()      # hashes of blocks the index has held (flushed) at some instant so far
         self.reply_t = {}
@@ -242,11 +243,35 @@ class SysEngine(MempoolEngine):
             await self.send(op[1], 'blockchain.headers.subscribe', [], {'k': 'hsub'})
         elif kind == 'q':
             await self.query(op[1], self.querier)
+        elif kind == 'qat':
+            await self.query(op[1], self.querier, at=op[2])
+            self.bump(f'query_aimed:{op[2]}')
+        elif kind == 'big':
+            # a block of >= 200 txs at the tip (the per-block merkle cache path)
+            w.mine(1, confirm='all', ntx=op[1])
+            if len(w.tip.txs) >= 200:
+                self.big_h = w.height()
+                self.bump('step:big_block_at_tip')
+            self.world_changed()
+        elif kind == 'reorg_big':
+            # the recent big block is replaced by another block of >= 200 txs at the same height (one block longer)
+            d = op[1] if self.big_h is None else max(op[1], w.height() - self.big_h + 1)
+            if w.height() >= 2 * d + 2 and d <= 2:
+                tip = w.fork(d, d + 1, rng=rng, remine=0.9, ntx=op[2])
+                if self.uw.admissible(tip):
+                    old_big = w.active()[self.big_h] if self.big_h is not None else None
+                    w.switch_to(tip)
+                    if old_big is not None and len(w.active()[self.big_h].txs) >= 200 and w.active()[self.big_h].hash != old_big.hash:
+                        self.bump('step:big_block_replaced_by_big_block')
+                    self.world_changed()
+                else:
+                    self.bump('reorg_skipped_inadmissible')
         elif kind == 'sleep':
             await asyncio.sleep(op[1])
 
-    async def query(self, qk, ci, orc=None):
-        '''A cache-populating / proof request chosen against the daemon's current chain.'''
+    async def query(self, qk, ci, orc=None, at=None):
+        '''A cache-populating / proof request chosen against the daemon's current chain.  at: 'big' aims at the most recent
+        block of >= 200 txs, 'tipcp' at a checkpoint at (or just below) the tip.'''
         w, rng = self.world, self.rng
         si = rng.randrange(len(self.scripts))
         sh = scripthash_hex(self.scripts[si])
@@ -254,6 +279,12 @@ class SysEngine(MempoolEngine):
         h = rng.randrange(max(1, len(chain) - 8), len(chain))
         if rng.random() < 0.3:
             h = rng.randrange(1, len(chain))
+        cp_at = None
+        if at == 'big' and self.big_h is not None and self.big_h < len(chain):
+            h = self.big_h
+        elif at == 'tipcp':
+            cp_at = len(chain) - 1 - rng.choice((0, 0, 0, 1))
+            h = rng.randrange(max(1, cp_at - 6), cp_at + 1)
         blk = chain[h]
         pos = rng.randrange(len(blk.txs))
         txid = blk.txs[pos].hash[::-1].hex()
@@ -270,11 +301,14 @@ class SysEngine(MempoolEngine):
             await self.send(ci, 'blockchain.transaction.get_tsc_merkle', [txid, h, rng.choice(('txid', 'tx')), tt],
                             {'k': qk, 'h': h, 'txid': txid, 'tt': tt})
         elif qk == 'header_proof':
-            cp = rng.randrange(h, len(chain))
+            cp = cp_at if cp_at is not None else rng.randrange(h, len(chain))
             await self.send(ci, 'blockchain.block.header', [h, cp], {'k': qk, 'h': h, 'cp': cp})
         elif qk == 'headers_proof':
             cnt = rng.randrange(1, 5)
             cp = rng.randrange(min(len(chain) - 1, h + cnt - 1), len(chain))
+            if cp_at is not None:
+                cnt = min(cnt, cp_at - h + 1)
+                cp = cp_at
             await self.send(ci, 'blockchain.block.headers', [h, cnt, cp], {'k': qk, 'h': h, 'cnt': cnt, 'cp': cp})
         elif qk == 'out_of_range':
             which = rng.choice(('height', 'cp', 'pos'))
@@ -306,6 +340,12 @@ class SysEngine(MempoolEngine):
                 self.viol('proof/refused-at-quiescence', f'{info["method"]} {info["params"]} refused at quiescence: {str(reply.get("error"))[:150]}')
             else:
                 self.bump('proof_requests_refused_during_reorg_window')
+                err = reply.get('error') or {}
+                if err.get('code') == -32603 and k in ('header_proof', 'headers_proof'):
+                    # DBError of the short-read guard in DB.fs_block_hashes: the header read ran while blocks were undone
+                    self.bump('header_proofs_refused_by_short_read_guard')
+                elif err.get('code') == -102:
+                    self.bump('proof_requests_timed_out_during_reorg_window')
             return
         h = info['h']
         cands = [tight_chain[h]] if tight_chain is not None and h < len(tight_chain) else self.branch_blocks_at(h)
@@ -551,6 +591,20 @@ class SysEngine(MempoolEngine):
                 owner = getattr(t.get_coro(), '__qualname__', '') if t else ''
                 if 'fetch_and_process_blocks' in owner or 'keep_synchronized' in owner or '_refresh_hashes' in owner:
                     return      # only client-request reads are held back, never the block processor's or the mempool's own
+                under = c.get('longpark_start_under')
+                if under:
+                    # only reads issued from inside the named functions are held, and at their start: the job looks at the
+                    # index only after the hold (e.g. the header read of a merkle cache extension, not the request's other reads)
+                    import sys
+                    f, inside = sys._getframe(1), False
+                    while f is not None and not inside:
+                        inside = f.f_code.co_name in under
+                        f = f.f_back
+                    if inside and rng.random() < lp:
+                        job.longpark = 'start'
+                        job.park_secs = rng.choice((4, 8, 12, 16, 22))
+                        self.bump('jobs_held_at_start')
+                    return
                 if job.name.split('.')[-1] in ('read_history', 'read_utxos', 'fs_tx_hashes_at_blockheight', 'read_headers') and rng.random() < lp:
                     job.longpark = 'job-end'
                     job.park_secs = rng.choice((6, 11, 17, 26))      # below the 30 s request / notification timeouts
